@@ -5,6 +5,7 @@ package ice
 // position of the default session (deviation-bounded).
 
 import (
+	"io"
 	"bytes"
 	"context"
 	"encoding/binary"
@@ -103,12 +104,17 @@ func newDataModel(raw json.RawMessage) *dataModel {
 		conn := m.side[i].conn
 		go func() {
 			defer close(ds.readerDone)
-			buf := make([]byte, 16384)
+			size := 16384
+			if m.cfg.ReadBuf > 0 {
+				size = m.cfg.ReadBuf
+			}
+			buf := make([]byte, size)
 			for {
 				n, err := conn.Read(buf)
-				if err != nil {
+				if err != nil && !errors.Is(err, io.ErrShortBuffer) {
 					return
 				}
+				// a datagram larger than the buffer is cut short: n bytes were returned all the same, and count
 				ds.read = append(ds.read, append([]byte{}, buf[:n]...))
 				ds.readTally += uint64(n) //nolint:gosec
 			}
@@ -321,7 +327,11 @@ func (m *dataModel) checkReaders() {
 			m.problem("", "agent %s: %d data datagram(s) from known remotes were delivered, the reader received %d", s.name, len(ds.expect), len(ds.read))
 		}
 		for k := 0; k < len(ds.read) && k < len(ds.expect); k++ {
-			if !bytes.Equal(ds.read[k], ds.expect[k]) {
+			want := ds.expect[k]
+			if m.cfg.ReadBuf > 0 && len(want) > m.cfg.ReadBuf {
+				want = want[:m.cfg.ReadBuf]
+			}
+			if !bytes.Equal(ds.read[k], want) {
 				m.problem("", "agent %s: datagram %d reached the reader modified or out of order", s.name, k)
 
 				break
@@ -402,6 +412,7 @@ func checkC07(c *runCtx) {
 	specs := []sp{
 		{fmt.Sprintf("2x2 session, data and foreign traffic at every position, D<=%d", dev), pairCfg{KindsA: h2, KindsB: h2, Ticks: 3, Dev: dev, Renom: true}},
 		{fmt.Sprintf("2x1 with restart, D<=%d", dev), pairCfg{KindsA: h2, KindsB: []string{"host"}, Ticks: 4, Dev: dev, Restarts: 1}},
+		{fmt.Sprintf("1x1, the application reads with a 400-byte buffer (larger datagrams are cut short, the bytes returned still count), D<=%d", dev), pairCfg{KindsA: []string{"host"}, KindsB: []string{"host"}, Ticks: 3, Dev: dev, ReadBuf: 400}},
 		{fmt.Sprintf("1x1 A behind NAT (prflx remote), D<=%d", dev), pairCfg{KindsA: []string{"nat"}, KindsB: []string{"host"}, Ticks: 3, Dev: dev}},
 		{fmt.Sprintf("1x1, A's candidate is signalled only after the session is up (the selected pair's peer-reflexive remote is superseded while data flows), D<=%d", dev), pairCfg{KindsA: []string{"host"}, KindsB: []string{"host"}, HoldSignal: []string{"0:0"}, Ticks: 3, Dev: dev}},
 		{fmt.Sprintf("2x1 trickled candidates (a peer-reflexive remote is superseded while data flows), D<=%d", dev), pairCfg{KindsA: h2, KindsB: []string{"host"}, Trickle: true, Ticks: 3, Dev: dev}},
